@@ -393,6 +393,11 @@ PROPS["C14"].streams.append(Stream("bigitem", "bigitem", lambda ctx: [str(2 ** 3
 PROPS["C20"].streams.append(Stream("sizes", "sizes", treegen.sizes_cases, flavours=("rel", "dbg"), spec="sizes_spec", nontrivial=lambda c, l: l != "size=0" or "18446" in c,
                                    rule="cbor_serialized_size on trees whose definite strings carry DECLARED lengths near 2^61..2^64 (length metadata forged as in the library's own overflow tests): sums that fit, wrap exactly and wrap by one, in arrays, maps (key+value subtotal), chunk lists and tags; the spec line is the exact unbounded total or 0"))
 
+sizesser = lambda: Stream("sizes-ser", "sizesser", treegen.sizesser_cases, flavours=("rel", "dbg"), nontrivial=lambda c, l: True,
+                          expect=lambda c: "ser=0,0,0,0,0,0",
+                          rule="the forged-length trees whose every declared string length is >= 2^32, handed to cbor_serialize with buffers of 0, 1, 9, 10, 18 and 64 bytes (exactly-sized heap blocks under ASan; 16 sentinel bytes behind the buffer otherwise): the result must be 0 and nothing may be stored past the buffer (closed form from C07_into / ssize_s_exact_or_zero: the encoding cannot fit)")
+PROPS["C20"].streams.append(sizesser())
+PROPS["C07"].streams.append(sizesser())
 PROPS["C04"].streams.append(struct_fault(("rel",), None, "growth-fault"))
 PROPS["C12"].streams.append(struct_fault(("rel",), None, "growth-fault"))
 
